@@ -10,6 +10,10 @@ mod plan;
 mod prng;
 mod refnat;
 mod scn_c09iter;
+mod scn_c17;
+mod scn_c18;
+mod seams;
+mod simalloc;
 mod sup;
 
 use plan::{json_str, Plan};
@@ -19,6 +23,9 @@ use std::io::Write;
 use std::sync::atomic::Ordering;
 use sup::RunResult;
 
+#[global_allocator]
+static GLOBAL: simalloc::SimAlloc = simalloc::SimAlloc;
+
 pub struct Scenario {
     pub name: &'static str,
     pub property: &'static str,
@@ -26,12 +33,26 @@ pub struct Scenario {
     pub exec: fn(&Plan) -> RunResult,
 }
 
-pub static SCENARIOS: &[Scenario] = &[Scenario {
-    name: "c09iter",
-    property: "C09",
-    gen: scn_c09iter::gen,
-    exec: scn_c09iter::exec,
-}];
+pub static SCENARIOS: &[Scenario] = &[
+    Scenario {
+        name: "c09iter",
+        property: "C09",
+        gen: scn_c09iter::gen,
+        exec: scn_c09iter::exec,
+    },
+    Scenario {
+        name: "c17",
+        property: "C17",
+        gen: scn_c17::gen,
+        exec: scn_c17::exec,
+    },
+    Scenario {
+        name: "c18",
+        property: "C18",
+        gen: scn_c18::gen,
+        exec: scn_c18::exec,
+    },
+];
 
 fn find(name: &str) -> &'static Scenario {
     SCENARIOS
